@@ -12,3 +12,4 @@ extern void vs_set_hang_cb(void (*cb)(const char *));
 extern void vs_set_group(int g);
 extern int vs_group(void);
 extern void vs_set_skew(unsigned point, unsigned len);
+extern void vs_park(int logical, unsigned point, unsigned len);
